@@ -948,6 +948,7 @@ pub mod m_c01_step {
 use super::*;
 // serves: C01
 /// C01, per step: the supply moves only at mint / burn, by exactly the amount, together with exactly one balance
+#[verifier::rlimit(40)]
 pub proof fn lemma_c01_step(s: Raw, t: Raw, sender: Seq<char>, b: &BlockInfo, msg: Cw20ExecuteMsg)
     requires inv(s), exec_post(s, t, sender, b, msg)
     ensures
@@ -993,6 +994,7 @@ pub mod m_c02_step {
 use super::*;
 // serves: C02
 /// C02, per step: whose balance may go down, and under which allowance
+#[verifier::rlimit(40)]
 pub proof fn lemma_c02_step(s: Raw, t: Raw, sender: Seq<char>, b: &BlockInfo, msg: Cw20ExecuteMsg, x: Seq<char>)
     requires inv(s), exec_post(s, t, sender, b, msg), bal(t, x) < bal(s, x)
     ensures
